@@ -18,7 +18,7 @@
        - has a checked 64-bit value in the final table (Expr/Denote.den64: labels, constants, arithmetic over them), or
        - is a memory operand [reg + e] / [e + reg] whose offset e has such a value;
      CPSIE/CPSID/DMB/DSB/ISB with any operand (never looked up);
-   * no .include/.global/.import/.export (outside the oracle's domain, C14).
+   * no .include/.global/.import/.export (outside the oracle's domain, C14) - for these see WHOLE PROJECTS below.
    Proved for the class:
    * C05_layout_partial: if the pipeline reports success without diagnostics, its regions are exactly the maximal runs of the
      dictionary { address + i |-> byte i } of the reference's statements (success is a hypothesis);
@@ -40,7 +40,32 @@
    layout_spec on every successful program and with the model on every program):
    * a deferred instruction statement whose evaluated operand is neither valued nor of the form [reg + e] / [e + reg]
      (e.g. `[R1 + 4 + k]`, or an operand that reduces to a register such as `R9 + k` with k = 0);
-   * .include (and .global/.import/.export).
+   * .include (and .global/.import/.export) outside the project class below.
+   WHOLE PROJECTS (C05_project_ theorems at the end of the file; proofs in Asm/LayoutMulti{,Spec,Eval,Mem,Step,File,Top,Check}.v).
+   Oracle: Asm/LayoutSpecExt.layout_spec_ext (two passes, one symbol table per file instance; the oracle of the correspondence
+   stream), files read through rel_fs fs path; parse_ref = the statement list of a file text.  PARTIAL: proved for the class
+   C05_project_class (C05_project_class_def / _walk / _stmt_class_def / _fresh_def), a walk of the include tree alongside the
+   reference's pass 1 that asks of every statement of every (transitively) included file, to any depth the reference accepts:
+   * the single-file class above (stmt_okx) w.r.t. the FINAL table of the statement's file instance;
+   * an operand mentions a name n that is declared by `.global` but not yet valued in the file only when the operand IS n
+     (nothing else), in a .du8/.du16/.du32 or an instruction statement (`.global main; ... B main; .du32 main; ... main:`);
+     a `.global n` BEFORE the definition of n is in the class, uses of n before the `.global` and after the definition are
+     unrestricted, between the two n may only stand alone (not in `n + 4`);
+   * `.import n` only of a name the includer has VALUED at that point (not of a name the includer has only declared);
+   * `.include "v"` / `.dfile "v"`: the file the context reads (relative to the including file) is the one the reference reads
+     (relative to the root file); no file includes a file that is still open (implied by the reference being defined; asked
+     for explicitly);
+   * no_collision: no .addr target and no byte of a statement on a byte of an earlier statement of ANY file.
+   `.export`, `.global` of a valued name, labels / .const handed up and down, sibling files reusing local names, forward
+   references across `.include` in both directions are in the class.  Proved: C05_project_layout_partial (both build profiles,
+   every include fuel >= 8 = the reference's depth bound: the pipeline reports success WITHOUT diagnostics and its image IS the
+   multi-file reference image), C05_project_no_placeholder_partial, C05_project_order_independent_partial,
+   C05_project_text_partial / _text_spelled_partial (root file given as characters), C05_project_label_next_item,
+   C05_project_class_check (executable sufficient check), C05_project_examples.
+   NOT proved for projects: compound operands that mention a declared-but-unvalued name (the simplifier's symbolic merge can reject
+   such a program before the definition and accept it after - S.3 of DESIGN.md - so acceptance needs a restriction there), `.import`
+   of a declared-only name (its uses are re-tried in the includer; a two-level chain of such imports is a diagnostic although
+   layout_spec_ext defines it), the character-level form for INCLUDED files (they are read through the parser model, C10).
    FOUND (C05_finding_examples, reported, not repaired): `CMP R8, R9 + k; .const k, 0;` is REJECTED (could not encode) although
    `.const k, 0; CMP R8, R9 + k;` assembles to CMP R8, R9: the placeholder of a deferred statement is the encoding of the
    half-filled template (`CMP R8, #0`, not encodable).  Same for `ADD R1, R1, R2 + k`.  Only operands that reduce to a
@@ -51,6 +76,7 @@ From Trion Require Import Text.Types Text.ParseModel Expr.I64 Expr.EvalModel Exp
   Asm.CtxModel Asm.CtxProofs Asm.LayoutSpec Asm.LayoutWf Asm.SegProofs Asm.LayoutProofs Asm.Ctx06Proofs Asm.LayoutEval Asm.LayoutInstr Asm.LayoutInstrD Asm.LayoutStage
   Asm.LayoutStep Asm.LayoutFinal Asm.LayoutProgFinal Asm.LayoutBytes Asm.LayoutText Asm.LayoutCheck Mem.DictSpec Text.Render Text.ShowSpec.
 From Trion Require Text.ParseProofs.
+From Trion Require Import Asm.LayoutSpecExt Asm.LayoutMulti Asm.LayoutMultiSpec Asm.LayoutMultiFile Asm.LayoutMultiTop Asm.LayoutMultiCheck.
 Import ListNotations.
 Open Scope N_scope.
 
@@ -342,3 +368,171 @@ Theorem C05_finding_examples :
   /\ pipeline nofs (src "root.asm") (src ".addr 0x100; CMP R8, R9 + k; .const k, 0;")
      = Done Failure [mkDiag (src "root.asm") 1 14 (KInstr DEncode)] [].
 Proof. vm_compute. split; reflexivity. Qed.
+
+(* ================================================================== WHOLE PROJECTS ================================================================== *)
+(* The class.  C05_project_class fs path prog: the reference's pass 1 is defined on the project (px_final: the final pass-1 state
+   with the tables of all file instances; EF_of x2 id = the final table of file instance id) and the walk `cls` holds. *)
+Theorem C05_project_class_def : forall fs path prog,
+  C05_project_class fs path prog <->
+  match px_final (rel_fs fs path) parse_ref prog with
+  | Some x2 => cls fs (rel_fs fs path) parse_ref (EF_of x2) 8 [] path px0 prog
+  | None => False
+  end.
+Proof. intros fs path prog. reflexivity. Qed.
+
+(* the walk, statement by statement (fuel = include depth as in LayoutSpecExt.xfile; `open` = the files being assembled above
+   `path`; x = the reference's pass-1 state before the statement): an `.include "v"` asks that the context's file is the
+   reference's, that it is not open, and the walk of the included file from xpush x; any other statement asks stmt_cls and,
+   for the reference's next state, fresh_x *)
+Theorem C05_project_class_walk : forall fs fsr prs EF k open path x e r,
+  cls fs fsr prs EF (S k) open path x (e :: r) =
+  match include_name e with
+  | Some v =>
+      fsr v = fs (resolve_path path v) /\ ~ In (resolve_path path v) (path :: open) /\
+      match fsr v with
+      | Some text =>
+          match prs text with
+          | Some prog =>
+              cls fs fsr prs EF k (path :: open) (resolve_path path v) (xpush x) prog /\
+              match xfile k fsr prs (xpush x) prog with
+              | Some x1 => match xpop x1 with Some x' => cls fs fsr prs EF (S k) open path x' r | None => True end
+              | None => True
+              end
+          | None => True
+          end
+      | None => True
+      end
+  | None => stmt_cls fs fsr EF path x e /\ match xstep fsr x e with Some x' => fresh_x x e x' /\ cls fs fsr prs EF (S k) open path x' r | None => True end
+  end.
+Proof. exact cls_cons. Qed.
+
+(* one statement of the file whose table is the top frame f of x (includer's table: p): no operand (for `.const n, e`: e)
+   mentions a name declared but not valued in f - or, in a .du8/.du16/.du32 or instruction statement, the operand is such a
+   name itself; the single-file class w.r.t. the final table EF (f_id f) of the file instance and the values so far;
+   `.import n` only when the includer has a value for n *)
+Theorem C05_project_stmt_class_def : forall fs fsr EF path x ev,
+  stmt_cls fs fsr EF path x ev <->
+  match x_stack x with
+  | f :: p :: _ =>
+      (forall a, In a (match ev with
+                       | ELabel _ => []
+                       | EInstruction _ args => args
+                       | EDirective name args => if dname name "const" then tl args else args
+                       end) ->
+         (forall n, In n (LayoutEval.idents a) -> sget (f_env f) n <> Some BDecl) \/
+         (match ev with
+          | EInstruction _ _ => true
+          | EDirective name _ => dname name "du8" || dname name "du16" || dname name "du32"
+          | ELabel _ => false
+          end = true /\ exists n, a = AIdent n /\ sget (f_env f) n = Some BDecl)) /\
+      LayoutStep.stmt_okx fs fsr path (EF (f_id f)) (vals (f_env f)) ev /\
+      (forall name n, ev = EDirective name [AIdent n] -> dname name "import" = true -> exists v, sget (f_env p) n = Some (BVal v))
+  | _ => False
+  end.
+Proof. intros fs fsr EF path x ev. reflexivity. Qed.
+
+(* no_collision for one step of the reference *)
+Theorem C05_project_fresh_def : forall x ev x',
+  fresh_x x ev x' <->
+  (forall c, is_addr ev = true -> x_cur x' = Some c -> ~ covered (flat_items (x_items x)) c) /\
+  (forall a idit y, x_items x' = (a, idit) :: x_items x -> a <= y -> y < a + item_size (snd idit) -> ~ covered (flat_items (x_items x)) y).
+Proof. intros x ev x'. reflexivity. Qed.
+
+(* The image of a project of the class IS the multi-file two-pass reference image, and the pipeline reports success without
+   any diagnostic - success is not a hypothesis; both build profiles (dbg); every include fuel >= 8 (layout_spec_ext walks at
+   most 8 levels, so the fuel suffices: cf. C06_no_out_of_fuel).  image_x placed = the maximal runs of the dictionary
+   { address + i |-> byte i } of the placed statements of all files. *)
+Theorem C05_project_layout_partial : forall dbg fs fuel path text els placed names, (8 <= fuel)%nat ->
+  parse_els text = Some els ->
+  layout_spec_ext (rel_fs fs path) parse_ref (map e_val els) = Some (placed, names) ->
+  C05_project_class fs path (map e_val els) ->
+  pipeline_gen dbg fs fuel path text = Done Success [] (image_x placed).
+Proof. exact project_layout. Qed.
+
+(* ... and from the source TEXT of the root file (characters; any separators incl. comments; canonical spelling, or any spelling
+   of every token and redundant parentheses) through C09's character-level round trip; included files are read through
+   parse_ref = the parser model on their text, in the reference and in the context alike *)
+Theorem C05_project_text_partial : forall dbg fs fuel path stmts seps placed names, (8 <= fuel)%nat ->
+  forallb writable_stmt stmts = true -> seps_ok (render_stmts stmts) seps ->
+  layout_spec_ext (rel_fs fs path) parse_ref stmts = Some (placed, names) -> C05_project_class fs path stmts ->
+  pipeline_gen dbg fs fuel path (show (render_stmts stmts) seps) = Done Success [] (image_x placed).
+Proof. exact project_text. Qed.
+
+Theorem C05_project_text_spelled_partial : forall dbg fs fuel path stmts ws seps placed names, (8 <= fuel)%nat ->
+  ParseProofs.RendStmts stmts (map wtok_val ws) -> Forall wtok_ok ws -> wseps_ok ws seps ->
+  layout_spec_ext (rel_fs fs path) parse_ref stmts = Some (placed, names) -> C05_project_class fs path stmts ->
+  pipeline_gen dbg fs fuel path (showw ws seps) = Done Success [] (image_x placed).
+Proof. exact project_textw. Qed.
+
+(* parse_els: the statement list of a text whose parse has no error item (what the correspondence driver hands to the oracle) *)
+Theorem C05_project_parse_def : forall text els,
+  parse_els text = Some els -> parse_source text = Parsed (map ParseModel.IOk els) None.
+Proof. exact parse_els_ok. Qed.
+
+(* No placeholder left, nothing else: at the address of EVERY statement of EVERY file instance the image holds exactly the bytes
+   pass 2 computed in the final table of that file instance, and no byte outside the statements. *)
+Theorem C05_project_no_placeholder_partial : forall dbg fs fuel path text els placed names, (8 <= fuel)%nat ->
+  parse_els text = Some els ->
+  layout_spec_ext (rel_fs fs path) parse_ref (map e_val els) = Some (placed, names) ->
+  C05_project_class fs path (map e_val els) ->
+  pipeline_gen dbg fs fuel path text = Done Success [] (runs (image_dict_x placed)) /\
+  (forall a bs id it, In ((a, bs), (id, it)) placed -> forall x, a <= x -> x < a + MapModel.len bs ->
+     d_get (image_dict_x placed) x = nth_error bs (N.to_nat (x - a))) /\
+  (forall x, d_get (image_dict_x placed) x <> None -> exists a bs id it, In ((a, bs), (id, it)) placed /\ a <= x /\ x < a + MapModel.len bs).
+Proof. exact project_no_placeholder. Qed.
+
+(* Order independence, also across files: a .du8/.du16/.du32 of file instance id holds the little-endian bytes of the value
+   its expression has in the FINAL table of that file instance (EF_of x2 id: the file's own labels and constants, the names
+   included files handed up, the names it imported) - the same bytes wherever the names are defined: before or after the
+   statement, before or after the `.include` that brings them. *)
+Theorem C05_project_order_independent_partial : forall dbg fs fuel path text els placed names x2, (8 <= fuel)%nat ->
+  parse_els text = Some els ->
+  layout_spec_ext (rel_fs fs path) parse_ref (map e_val els) = Some (placed, names) ->
+  C05_project_class fs path (map e_val els) ->
+  px_final (rel_fs fs path) parse_ref (map e_val els) = Some x2 ->
+  pipeline_gen dbg fs fuel path text = Done Success [] (runs (image_dict_x placed)) /\
+  forall a bs id size e, In ((a, bs), (id, IData size e)) placed ->
+    exists v, den64 (rho (EF_of x2 id)) e = Some v /\ (0 <= v < Z.of_N (N.shiftl 1 (8 * size)))%Z /\
+      bs = le_bytes_n (N.to_nat size) (Z.to_N v) /\
+      forall x, a <= x -> x < a + MapModel.len bs -> d_get (image_dict_x placed) x = nth_error bs (N.to_nat (x - a)).
+Proof. exact project_order_independent. Qed.
+
+(* in the reference a label's value is the address of the item placed next (in whatever file instance the label stands) *)
+Theorem C05_project_label_next_item : forall fsr x n x1 e x2 a idit f1 r1,
+  xstep fsr x (ELabel n) = Some x1 -> xstep fsr x1 e = Some x2 -> x_items x2 = (a, idit) :: x_items x1 ->
+  x_stack x1 = f1 :: r1 -> sget (f_env f1) n = Some (BVal (Z.of_N a)).
+Proof. exact label_next_item_x. Qed.
+
+(* the class has an executable (sufficient) check *)
+Theorem C05_project_class_check : forall fs path prog, project_check fs path prog = true -> C05_project_class fs path prog.
+Proof. exact project_check_sound. Qed.
+
+(* non-vacuity: a 3-file project.  root includes a and b; a exports the label alab, which root uses BEFORE and AFTER the include,
+   and declares ag by `.global` before defining it, with `B ag; .du16 ag;` between the declaration and the definition; b imports
+   the root constant k; root branches forward across both includes
+   (B fwd) and uses bsum, a constant b computes from the imported k; a and b each have a local `tmp` of their own.  The
+   pipeline's image (both profiles) and the reference agree, the project passes the class check, and the final tables of the
+   three file instances are as expected.  The real assembler produces the same image for these files. *)
+Theorem C05_project_examples :
+  let src := bytes_of_string in
+  let t_root := src ".addr 0x100; .const k, 5; .du32 alab; B fwd; .include ""a.asm""; .du32 alab + ag; .include ""b.asm""; fwd: .du32 bsum; .du8 k;" in
+  let t_a := src ".const tmp, 1; .global ag; alab: .du16 later; .du8 tmp; .align 2; B ag; .du16 ag; .const later, 0x1234; ag: .export alab; B alab;" in
+  let t_b := src ".import k; .const tmp, 2; .du8 tmp; .align 4; .du32 k + 1; .const bsum, k * 2 + tmp; .export bsum;" in
+  let fs : str -> option (list N) := fun v =>
+    if AsmStmtModel.str_eqb v (src "a.asm") then Some t_a else if AsmStmtModel.str_eqb v (src "b.asm") then Some t_b else None in
+  let root := src "root.asm" in
+  let img := [(0x100, 0x120, [6; 1; 0; 0; 10; 224; 52; 18; 1; 190; 0; 224; 14; 1; 250; 231; 20; 2; 0; 0; 2; 190; 190; 190; 6; 0; 0; 0; 12; 0; 0; 0; 5])] in
+  pipeline_gen false fs 8 root t_root = Done Success [] img /\ pipeline_gen true fs 64 root t_root = Done Success [] img
+  /\ match parse_ref t_root with
+     | Some prog =>
+         option_map (fun r => (map fst (fst r), image_x (fst r))) (layout_spec_ext (rel_fs fs root) parse_ref prog)
+         = Some ([(0x100, [6; 1; 0; 0]); (0x104, [10; 224]); (0x106, [52; 18]); (0x108, [1]); (0x109, [190]); (0x10A, [0; 224]); (0x10C, [14; 1]);
+                  (0x10E, [250; 231]); (0x110, [20; 2; 0; 0]); (0x114, [2]); (0x115, [190; 190; 190]); (0x118, [6; 0; 0; 0]); (0x11C, [12; 0; 0; 0]); (0x120, [5])], img)
+         /\ project_check fs root prog = true
+         /\ option_map (fun x2 => (env_get (EF_of x2 1) (src "alab"), env_get (EF_of x2 1) (src "tmp"), env_get (EF_of x2 2) (src "tmp"),
+                                   env_get (EF_of x2 3) (src "tmp"), env_get (EF_of x2 3) (src "k"), env_get (EF_of x2 1) (src "bsum")))
+                       (px_final (rel_fs fs root) parse_ref prog)
+            = Some (Some 262%Z, None, Some 1%Z, Some 2%Z, Some 5%Z, Some 12%Z)
+     | None => False
+     end.
+Proof. vm_compute. repeat split; reflexivity. Qed.
